@@ -120,7 +120,10 @@ def main(seed, ncases, driver, out):
         if mvals != outs:
             failures.append({"case": c, "kind": "value-mismatch", "input": js, "impl": outs, "model": mvals})
         elif [sorted(l) for l in mlogs] != logs:
-            failures.append({"case": c, "kind": "request-log-mismatch", "input": js, "impl": logs, "model": [sorted(l) for l in mlogs]})
+            # which factor elements get evaluated is compared with the model's reading of `product_by_order`; a difference alone (values agree)
+            # breaks the correspondence, it is not yet a failing input of the property — unless an element was requested whose complementary
+            # element of the other factor is absent (`zero` at the time), which the property forbids
+            failures.append({"case": c, "kind": "request-log-mismatch", "correspondence_only": True, "input": js, "impl": logs, "model": [sorted(l) for l in mlogs]})
         elif ncalls > 0 and not any(v.startswith("E:") for v in mvals):
             # fault phase (C11): the k-th multiplication raises once; the exception must reach the caller (RuntimeError wrapped),
             # and the repeated request must return the model's undisturbed value
